@@ -710,22 +710,43 @@ def canon_tree(model, base_ids, ordered=True) -> str:
         return el.tag.rsplit("}", 1)[-1]
 
     def walk_ids(el, path):
+        # named elements: token = path of names (independent of the position among differently named siblings)
         i = el.get("id")
         if i and i not in base_ids:
             tok[i] = path
         counts: dict = {}
         for ch in el:
-            if not isinstance(ch.tag, str):
+            if not isinstance(ch.tag, str) or not ch.get("name"):
                 continue
             k = (lt(ch), ch.get(XSI_TYPE), ch.get("name"))
             j = counts.get(k, 0)
             counts[k] = j + 1
             walk_ids(ch, f"{path}/{k[0]}:{k[1]}:{k[2]!r}#{j}")
-    for name, r in roots:
-        walk_ids(r, name)
+
+    def walk_unnamed(el, path):
+        # unnamed elements (links, allocations): token = what they say, not where they stand
+        counts: dict = {}
+        for ch in el:
+            if not isinstance(ch.tag, str):
+                continue
+            if ch.get("name"):
+                walk_unnamed(ch, tok.get(ch.get("id"), path + "/" + lt(ch) + ":" + repr(ch.get("name"))))
+                continue
+            sig = (lt(ch), ch.get(XSI_TYPE), tuple(sorted((k, sub(v)) for k, v in ch.attrib.items() if k != "id")))
+            j = counts.get(sig, 0)
+            counts[sig] = j + 1
+            p2 = f"{path}/{sig!r}#{j}"
+            i = ch.get("id")
+            if i and i not in base_ids:
+                tok[i] = p2
+            walk_unnamed(ch, p2)
 
     def sub(v):
         return UUID_RE.sub(lambda m: "<" + tok[m.group(0)] + ">" if m.group(0) in tok else m.group(0), v)
+    for name, r in roots:
+        walk_ids(r, name)
+    for name, r in roots:
+        walk_unnamed(r, name)
 
     def ser(el):
         attrs = " ".join(f"{k}={sub(v)!r}" for k, v in sorted(el.attrib.items()))
@@ -931,7 +952,7 @@ def run(chk: lib.Check):
     # ---------------- streams
     limit_full = 4 if quick else 6
     nrandom = 12 if quick else 120
-    ndocs = 70 if quick else 600
+    ndocs = 56 if quick else 600
     for d in range(ndocs):
         tag = "empty52" if (d % 5) else rng.choice([t for t in bases if t != "empty52"])
         base = bases[tag]
@@ -943,7 +964,7 @@ def run(chk: lib.Check):
         lf = limit_full if (tag == "empty52") else min(limit_full, 3 if quick else 4)
         one_document(plan, base, lf, nrandom if tag == "empty52" else max(4, nrandom // 6))
     # the unstable stream (known finding: sibling order)
-    for d in range(12 if quick else 80):
+    for d in range(8 if quick else 80):
         base = bases["empty52"]
         plan = gen_plan(rng, base, rng.choice([4, 6, 8]), stable=False)
         one_document(plan, base, 3 if quick else 5, 8 if quick else 40)
